@@ -123,3 +123,20 @@ for _id, (_t, _l) in ADDED.items():
         if _t:
             t = t + " + " + _t
         CLAIMED[_id] = (t, text + _l, note, ref)
+
+# rules that are necessary conditions of more than one property are run by each of those checks
+SHARED = {
+ "C01": ("effect/ownership analysis of Match/MatchFrom (shared with C04/C09)", " Shared rule R04.1: Match and MatchFrom write nothing reachable from the classifier, a package-level variable or the input (a cached document list or a shared scratch hasher loses the copy of a later-added document or of an overlapping call)."),
+ "C02": ("effect analysis and map-order taint of Match, must-pass-through rule for AddContent (shared with C04), refill-carried state rule (shared with C06)", " Shared rules: R04.1 and R04.4 (each reported identity/confidence pair comes from one corpus document: no state carried between documents, no map order reaching the result), R04.8 (the document named by a match is the one added under that identity: AddContent stores on every path), R06.3 (line state survives a buffer refill)."),
+ "C03": ("stored-threshold rule (shared with C01)", " Shared rule R01.2: the threshold compared with is the value the caller configured - stored as given by NewClassifier and written nowhere else."),
+ "C09": ("nondeterminism-source rule for the diff deadline (shared with C04)", " Shared rule R04.5: no wall-clock deadline decides how fine the word diff is (under N concurrent calls the deadline passes earlier than for a call run alone); the default one-second deadline of go-diff is known finding D4."),
+ "C13": ("lock-set rule for the match queue (shared with C14)", " Shared rule R14.4: every operation on the queue that MultipleMatch's goroutines push into holds the queue's mutex (a lost push is an unreported copy)."),
+ "C15": ("quoting rule at the registration sites (shared with C13)", " Shared rule R13.1: the archived text is quoted before it is compiled for the exact-occurrence shortcut, as AddValue does."),
+ "C16": ("effect analysis of the v1 entry points (shared with C14), archive-reader event rule (shared with C15)", " Shared rules: R14.5 (NearestMatch/MultipleMatch keep no scratch state between calls), R15.2/R15.4 (when the corpus is loaded every archived text is read completely and paired with its own search set)."),
+}
+for _id, (_t, _l) in SHARED.items():
+    if _id in CLAIMED:
+        t, text, note, ref = CLAIMED[_id]
+        if _t:
+            t = t + " + " + _t
+        CLAIMED[_id] = (t, text + _l, note, ref)
